@@ -20,13 +20,16 @@ import (
 // VerifC04_TopologyAllocate: the real allocate action with the real topology plugin. A gang of two
 // pods requires one domain at the "rack" or "zone" level of topology "topo" (or names a topology
 // that does not exist); optionally one more pod of the workload is already running. Nodes: n0
-// (zone z1, rack r1), n1 (z1, r2), n2 (z2, r3), n3 without the topology's labels; the number of
+// (zone z1, rack r1), n1 (z1, r2), n2 (z2, r3), n3 without the topology's labels (none at all, or only the finer one); the number of
 // pods that fit on each node is symbolic (0..3), so the solver decides which domains have room.
 // BOUND: 4 nodes (cpu = 16 x symbolic k, k in 0..3), 2-level topology, one workload: gang of 2 pending pods (+ optionally 1 running pod on n0 or n2), 16 milli-cpu per pod; required level rack / zone / unknown topology
 func VerifC04_TopologyAllocate() {
 	w := &actWorld{vm: resource_info.NewResourceVectorMap()}
 	w.queues = []actQueue{{name: "d", parent: "", deserved: -1, limit: -1}, {name: "qa", parent: "d", deserved: 1 << 10, limit: -1}}
 	labels := []map[string]string{{"zone": "z1", "rack": "r1"}, {"zone": "z1", "rack": "r2"}, {"zone": "z2", "rack": "r3"}, {}}
+	if vr.AnyBool("n3.hasRackLabelOnly") {
+		labels[3] = map[string]string{"rack": "r9"} // lacks the topology's top-level label
+	}
 	for i, l := range labels {
 		name := vs.Name("n", i)
 		w.addNode(name, 16*vr.AnyFloatNat(name+".podsThatFit", 2))
